@@ -382,6 +382,7 @@ class Run:
         ev = write_evidence(self.prop, self.tier, self.seed, self.obs, wall, sorted(set(self.cmds)),
                             getattr(self.reg, "TRUSTED", []), getattr(self.reg, "ASSUMPTIONS", []),
                             self.functions, len(self.violations),
+                            partial=getattr(self, "partial", False),
                             extra={"undecided": self.undecided, "selftest": getattr(self, "selftest", None),
                                    "not_decided": getattr(self.reg, "NOT_DECIDED", [])})
         for ln in self.known_lines:
@@ -552,6 +553,7 @@ def main(argv):
         run = Run(a.prop, a.tier, seed)
         if a.only:
             run.reg = restrict_registry(run.reg, set(a.only.split(",")))
+            run.partial = True
         run.run_all()
         if a.tier == "thorough" and not run.violations and not a.only:
             ok, res = run_selftest(a.prop, seed)
